@@ -160,14 +160,16 @@ static HANDOVERS: std::sync::atomic::AtomicU64 = std::sync::atomic::AtomicU64::n
 /// value of HANDOVERS when the current program began
 static PROGRAM_START: std::sync::atomic::AtomicU64 = std::sync::atomic::AtomicU64::new(0);
 
-fn step(r: &mut Rng, live: &mut Vec<Val>, tx: &mpsc::Sender<Val>) {
+fn step(r: &mut Rng, live: &mut Vec<Val>, tx: &mpsc::Sender<Val>, wide: bool) {
     if live.is_empty() || (live.len() < 6 && r.below(3) == 0) {
         live.push(construct(r));
         check(live.last().unwrap());
         return;
     }
     let i = r.below(live.len() as u64) as usize;
-    match r.below(11) {
+    // (the operations 9 and 10 exist only in the "wide" variant of a program, so that the plain
+    // variant stays the program it was before they were added)
+    match if wide { r.below(11) } else { r.below(9) } {
         9 => {
             // clone_from: the destination's previous content (an owned buffer, a shared reference)
             // must be released, the new content is the source's
@@ -305,7 +307,7 @@ fn step(r: &mut Rng, live: &mut Vec<Val>, tx: &mpsc::Sender<Val>) {
     }
 }
 
-fn program(seed: u64) {
+fn program(seed: u64, wide: bool) {
     PROGRAM_START.store(HANDOVERS.load(std::sync::atomic::Ordering::Relaxed), std::sync::atomic::Ordering::Relaxed);
     let mut r = Rng(seed.wrapping_mul(0xA24BAED4963EE407) ^ 0x5151);
     let (tx, rx) = mpsc::channel::<Val>();
@@ -332,7 +334,7 @@ fn program(seed: u64) {
     let mut live = vec![];
     let steps = 6 + r.below(14);
     for _ in 0..steps {
-        step(&mut r, &mut live, &tx);
+        step(&mut r, &mut live, &tx, wide);
         for v in &live {
             check(v);
         }
@@ -473,7 +475,8 @@ fn main() {
             raw_program(s);
             HANDOVERS.fetch_add(1, std::sync::atomic::Ordering::Relaxed);
         } else {
-            program(s);
+            program(s, false);
+            program(s, true);
         }
         println!("prog {} handovers={}", s, HANDOVERS.load(std::sync::atomic::Ordering::Relaxed) - before);
     }
